@@ -1,2 +1,89 @@
-From Coq Require Import ZArith.
-Theorem placeholder : True. Proof. exact I. Qed.
+(* Properties_C02.v — property C02: internal cell forces conserve momentum and derive from the stated energies.
+   Only statements; every proof is `exact <lemma of ForcesProofs*.v>`.  Model: Forces.v at R. *)
+From Coq Require Import NArith ZArith Bool List Lia Reals Lra.
+From Coquelicot Require Import Coquelicot.
+From SC Require Import Num Vec3 VecR Rot Mesh Geometry GeometrySpec Forces ForcesSpec ForcesProofsA ForcesProofsB.
+Import ListNotations.
+Local Open Scope R_scope.
+
+(* ---- pressure *)
+Theorem pressure_net_force_zero : forall (nodes : list vR) (faces : list ffaceR) (P : R),
+  ValidSurface (tris_of faces) -> ids_in_range nodes (tris_of faces) -> fresh nodes faces ->
+  net_force (apply_pressure NumR P faces (zeroF (length nodes))) = mkv 0 0 0.
+Proof. exact pressure_force_zero. Qed.
+Print Assumptions pressure_net_force_zero.
+
+Theorem pressure_net_torque_zero : forall (nodes : list vR) (faces : list ffaceR) (P : R),
+  ValidSurface (tris_of faces) -> ids_in_range nodes (tris_of faces) -> fresh nodes faces ->
+  net_torque nodes (apply_pressure NumR P faces (zeroF (length nodes))) = mkv 0 0 0.
+Proof. exact pressure_torque_zero. Qed.
+Print Assumptions pressure_net_torque_zero.
+
+(* the pressure force on node i equals P times the derivative of the enclosed (signed) volume with respect to that
+   node: the volume is affine in each single node, so the derivative in direction d is the exact difference *)
+Theorem pressure_force_is_P_gradV : forall (nodes : list vR) (faces : list ffaceR) (P : R) (i : nat) (d : vR),
+  ValidSurface (tris_of faces) -> ids_in_range nodes (tris_of faces) -> fresh nodes faces -> (i < length nodes)%nat ->
+  nth i (apply_pressure NumR P faces (zeroF (length nodes))) (mkv 0 0 0) ·  d =
+  P * ((six_signed_volume NumR (map (tri_pos NumR (displace nodes i d)) (tris_of faces))
+        - six_signed_volume NumR (map (tri_pos NumR nodes) (tris_of faces))) / 6).
+Proof. exact pressure_is_P_gradV. Qed.
+Print Assumptions pressure_force_is_P_gradV.
+
+(* ---- surface tension + membrane elasticity: zero net force for ANY cached normals, zero net torque for fresh ones *)
+Theorem tension_net_force_zero : forall (nodes : list vR) (faces : list ffaceR) (tensions : list R) (ka iso V A : R),
+  ids_in_range nodes (tris_of faces) ->
+  net_force (apply_tension NumR LibmRF nodes tensions ka iso V A faces (zeroF (length nodes))) = mkv 0 0 0.
+Proof. exact tension_force_zero. Qed.
+Print Assumptions tension_net_force_zero.
+
+Theorem tension_net_torque_zero : forall (nodes : list vR) (faces : list ffaceR) (tensions : list R) (ka iso V A : R),
+  ids_in_range nodes (tris_of faces) -> fresh nodes faces ->
+  net_torque nodes (apply_tension NumR LibmRF nodes tensions ka iso V A faces (zeroF (length nodes))) = mkv 0 0 0.
+Proof. exact tension_torque_zero. Qed.
+Print Assumptions tension_net_torque_zero.
+
+(* the force a face applies to its first node is -(gamma_face + (ka/A0)(A/A0 - 1)) times the area gradient
+   -1/2 n x (x2 - x3), and that vector IS the derivative of the triangle area with respect to the node *)
+Theorem tension_force_is_minus_gamma_gradA : forall (p1 p2 p3 d : vR),
+  vnorm NumR (face_normal_raw NumR (p1, p2, p3)) <> 0 ->
+  is_derive (fun h : R => face_area NumR (p1 +v d *v h, p2, p3)) 0
+    ((face_normal NumR (p1, p2, p3) × (p2 -v p3)) *v (- (1 / 2)) ·  d).
+Proof. exact area_gradient. Qed.
+Print Assumptions tension_force_is_minus_gamma_gradA.
+
+(* ---- angle regularisation: the three gradients of an angle sum to zero identically, hence zero net force *)
+Theorem angle_gradients_sum_to_zero : forall (eps dmin : R) (i j k : vR),
+  let '(gi, gj, gk) := angle_gradient NumR LibmRF eps dmin i j k in gi +v gj +v gk = mkv 0 0 0.
+Proof. exact angle_gradient_sum. Qed.
+Print Assumptions angle_gradients_sum_to_zero.
+
+Theorem angle_reg_net_force_zero : forall (pi eps dmin kreg : R) (nodes : list vR) (faces : list ffaceR),
+  ids_in_range nodes (tris_of faces) ->
+  net_force (apply_anglereg NumR LibmRF pi eps dmin nodes kreg faces (zeroF (length nodes))) = mkv 0 0 0.
+Proof. exact anglereg_force_zero. Qed.
+Print Assumptions angle_reg_net_force_zero.
+
+(* ---- bending: the four forces of every hinge sum to zero (fresh normals, coherent hinges, pi = PI) *)
+Theorem bending_net_force_zero : forall (nodes : list vR) (bends : list R) (faces : list ffaceR) (hinges : list hinge),
+  ids_in_range nodes (tris_of faces) -> fresh nodes faces -> List.Forall (hinge_ok faces) hinges ->
+  net_force (apply_bending NumR LibmRF PI nodes bends faces hinges (zeroF (length nodes))) = mkv 0 0 0.
+Proof. exact bending_force_zero. Qed.
+Print Assumptions bending_net_force_zero.
+
+(* ---- the force field follows the cell under translation (every term is built from differences of positions) *)
+Theorem internal_forces_translation_invariant :
+  forall (pi eps dmin P ka iso V A kreg : R) (tensions bends : list R) (nodes : list vR) (tl : list (tri * nat)) (hinges : list hinge) (t : vR),
+  ids_in_range nodes (map fst tl) ->
+  List.Forall (fun h => (N.to_nat (h_n1 h) < length nodes)%nat /\ (N.to_nat (h_n2 h) < length nodes)%nat) hinges ->
+  let nodes' := map (fun p => p +v t) nodes in
+  let faces := map (fun x => refresh NumR nodes (fst x) (snd x)) tl in
+  let faces' := map (fun x => refresh NumR nodes' (fst x) (snd x)) tl in
+  let F0 := zeroF (length nodes) in
+  apply_anglereg NumR LibmRF pi eps dmin nodes' kreg faces'
+    (apply_bending NumR LibmRF pi nodes' bends faces' hinges
+      (apply_tension NumR LibmRF nodes' tensions ka iso V A faces' (apply_pressure NumR P faces' F0))) =
+  apply_anglereg NumR LibmRF pi eps dmin nodes kreg faces
+    (apply_bending NumR LibmRF pi nodes bends faces hinges
+      (apply_tension NumR LibmRF nodes tensions ka iso V A faces (apply_pressure NumR P faces F0))).
+Proof. exact forces_translation_invariant. Qed.
+Print Assumptions internal_forces_translation_invariant.
